@@ -142,7 +142,7 @@ def generate(rng, tier):
         case["start"] = rng.randrange(S)
         case["boxed"] = rng.random() < 0.3
         if solver == "anneal":
-            p = {"temperature": rng.choice([0.5, 10.0, 1000.0]), "cooling": rng.choice([0.5, 0.9, 0.9995, "linear", "log"]),
+            p = {"temperature": rng.choice([0.5, 10.0, 1000.0]), "cooling": rng.choice([0.5, 0.9, 0.9995, "linear", "log", "exp_obj"]),
                  "min_temp": rng.choice([1e-8, 0.1, 5.0]), "max_iter": rng.choice(mi_pool)}
         elif solver == "tabu":
             p = {"cooldown": rng.randrange(1, 6), "max_iter": rng.choice(mi_pool), "max_no_improve": rng.choice([1, 2, 5, 20, 100])}
@@ -325,10 +325,12 @@ def run_solver(case, policy, negate=False, minimize=None):
 
                 cooling = p["cooling"]
                 m = solvor_mod("anneal")
-                if cooling == "linear":
-                    cooling = m.linear_cooling(1e-3)
-                elif cooling == "log":
-                    cooling = m.logarithmic_cooling(1.0)
+                if isinstance(cooling, str):
+                    # one schedule object per case, reused by every run of the case (a caller keeps its schedule around)
+                    if "_cooling_obj" not in case:
+                        case["_cooling_obj"] = {"linear": lambda: m.linear_cooling(1e-3), "log": lambda: m.logarithmic_cooling(1.0),
+                                                "exp_obj": lambda: m.exponential_cooling(0.9)}[cooling]()
+                    cooling = case["_cooling_obj"]
                 run.result = m.anneal(box(case["start"]), f, neighbors, temperature=p["temperature"], cooling=cooling,
                                       min_temp=p["min_temp"], max_iter=p["max_iter"], seed=seed, **kw)
             elif solver == "tabu":
